@@ -582,8 +582,8 @@ class _Expr(SymEval):
                 return len(self.eval(n.args[0]))
             if f.id == "isinstance" and len(n.args) == 2:
                 v = self.eval(n.args[0])
-                if isinstance(v, (Sym, np.ndarray)):
-                    raise NotSymbolic("isinstance of a symbolic / array value")
+                if isinstance(v, Sym):
+                    raise NotSymbolic("isinstance of a symbolic value")
                 kinds = n.args[1].elts if isinstance(n.args[1], ast.Tuple) else [n.args[1]]
                 mod_ = getattr(self.owner, "module", None) or (self.owner.cls.module if self.owner.cls is not None else None)
                 for k in kinds:
@@ -597,6 +597,10 @@ class _Expr(SymEval):
                             return True
                         continue
                     if r is not None and r[0] == "external":
+                        if r[1] in ("numpy.ndarray",):
+                            if isinstance(v, np.ndarray):
+                                return True
+                            continue
                         if isinstance(v, ExtObj) and v.kind == r[1]:
                             return True
                         if isinstance(v, TextSink) and r[1] in ("io.TextIOBase", "typing.TextIO", "io.IOBase"):
